@@ -128,6 +128,20 @@ func genC08(seed uint64, idx int, tier string) *Scenario {
 			}
 		}
 	}
+	// the same port number over the other protocol, with services of its own (still unambiguous: ports match on protocol)
+	if r.Chance(0.3) {
+		e := p.Ports[0]
+		if e.Proto == "tcp" {
+			e.Proto = "udp"
+		} else {
+			e.Proto = "tcp"
+		}
+		e.Services = nil
+		for j := r.Range(1, 3); j > 0; j-- {
+			e.Services = append(e.Services, p.Stubs[r.Intn(len(p.Stubs))].Name)
+		}
+		p.Ports = append(p.Ports, e)
+	}
 	sc := &Scenario{Engine: "c08"}
 	sc.Config = baseConfig + stubConfig(p.Stubs) + portsConfig(p.Ports)
 	pj, _ := json.Marshal(p)
@@ -223,6 +237,8 @@ func genC08(seed uint64, idx int, tier string) *Scenario {
 	}
 	sc.DrainMs = 62000
 	sc.Params["read_size"] = []int{1, 2, 8, 64, 1024, 4096, 4096}[r.Intn(7)]
+	// a service may do something before its first read (the bytes inspected for detection have to keep until then)
+	sc.Params["pre_read_ms"] = []int{0, 0, 0, 1, 20, 2000}[r.Intn(6)]
 	return sc
 }
 
@@ -347,6 +363,7 @@ func runC08(t *testing.T, sc *Scenario) Result {
 	res := okResult()
 	stubHub.reset()
 	stubHub.ReadSize = sc.ParamInt("read_size", 4096)
+	stubHub.PreReadMs = sc.ParamInt("pre_read_ms", 0)
 	obs := RunScenario(t, sc, nil)
 	res.Digest = traceDigest(obs, nil)
 	res.Steps, res.SimMs = obs.Steps, obs.SimMs
